@@ -277,4 +277,120 @@ Section ALP.
     apply (c11_sim_run _ _ _ _ _ _ _ _ c11_al_R c11_al_step_sim c11_al_observe_sim).
     split; simpl; auto. apply c11_al_inv_empty.
   Qed.
+  (* ------------------------------------------------------------ deep observable: the private state is well formed after every operation *)
+  Definition c11_al_below (s : c11_al T) : Prop := forall j, j < al_start s / cs -> nth_error (al_chunks s) j = Some None.
+  Definition c11_al_deep_wf (x : nat * nat * nat * list bool) : Prop :=
+    let '(st, sz, cap, nulls) := x in
+    cap = length nulls * cs /\ st + sz <= cap /\ forall j, j < length nulls -> nth_error nulls j = Some (j <? st / cs).
+
+  Lemma c11_al_assignAt_chunks s i v s' : c11_al_assignAt T N s i v = C11_ok s' ->
+    al_start s' = al_start s /\ forall j, j <> i / cs -> nth_error (al_chunks s') j = nth_error (al_chunks s) j.
+  Proof.
+    unfold c11_al_assignAt. fold cs. destruct (nth_error (al_chunks s) (i / cs)) as [[c |] |]; try discriminate.
+    destruct (i mod cs <? length c); [| discriminate]. intros H. injection H as <-. cbn [al_start al_chunks]. split; auto.
+    intros j Hj. apply c11_set_nth_other. auto.
+  Qed.
+
+  Lemma c11_al_below_push s l v s' : c11_al_inv s l -> c11_al_below s -> c11_al_push_back T d N s v = C11_ok s' -> c11_al_below s'.
+  Proof.
+    intros (Hcap & Hle & Hsz & Hal & Hel) Hb. unfold c11_al_push_back. fold cs.
+    set (index := al_start s + al_size s).
+    assert (Hge : al_start s / cs <= index / cs) by (apply Nat.div_le_mono; auto; unfold index; lia).
+    assert (Hlen : al_start s / cs <= length (al_chunks s)).
+    { rewrite <- (Nat.div_mul (length (al_chunks s)) cs Hcs). apply Nat.div_le_mono; auto. lia. }
+    destruct (index =? al_cap s).
+    - match goal with |- c11_bind (c11_al_assignAt T N ?s1 _ _) _ = _ -> _ => destruct (c11_al_assignAt T N s1 index v) as [s2 | |] eqn:E end; try discriminate.
+      simpl. intros H. injection H as <-. apply c11_al_assignAt_chunks in E. destruct E as [Est Ech]. cbn [al_start al_chunks] in *.
+      intros j Hj. cbn [al_start al_chunks] in *. rewrite Est in Hj. rewrite Ech by lia. rewrite nth_error_app1 by lia. apply Hb; auto.
+    - destruct (c11_al_assignAt T N s index v) as [s2 | |] eqn:E; try discriminate.
+      simpl. intros H. injection H as <-. apply c11_al_assignAt_chunks in E. destruct E as [Est Ech].
+      intros j Hj. cbn [al_start al_chunks] in *. rewrite Est in Hj. rewrite Ech by lia. apply Hb; auto.
+  Qed.
+
+  Lemma c11_al_reset_loop_in n : forall pcs ch j, n <= pcs -> pcs - n <= j < pcs -> j < length ch ->
+    nth_error (c11_al_reset_loop T n pcs ch) j = Some None.
+  Proof.
+    induction n; intros pcs ch j Hn Hj Hl; simpl. lia.
+    destruct (Nat.eq_dec j (pcs - 1)) as [-> | Hne].
+    - rewrite c11_al_reset_loop_above by lia. apply c11_set_nth_same. auto.
+    - apply IHn; try lia. rewrite c11_set_nth_length. auto.
+  Qed.
+  Lemma c11_al_reset_loop_below n : forall pcs ch j, n <= pcs -> j < pcs - n ->
+    nth_error (c11_al_reset_loop T n pcs ch) j = nth_error ch j.
+  Proof.
+    induction n; intros pcs ch j Hn Hj; simpl; auto.
+    rewrite IHn by lia. apply c11_set_nth_other. lia.
+  Qed.
+
+  Lemma c11_al_below_erase s l k : c11_al_inv s l -> c11_al_below s -> k < length l ->
+    c11_al_below (fst (c11_al_eraseToHere T N s (al_start s + k))).
+  Proof.
+    intros (Hcap & Hle & Hsz & Hal & Hel) Hb Hk. unfold c11_al_eraseToHere. fold cs. cbn [fst].
+    set (p1 := S (al_start s + k)).
+    set (r := al_start s mod cs). set (q := al_start s / cs).
+    assert (Hst : al_start s = q * cs + r) by (unfold q, r; rewrite Nat.mul_comm; apply Nat.div_mod; auto).
+    assert (Hpcs : p1 / cs = q + (p1 - al_start s + r) / cs).
+    { replace p1 with (q * cs + (p1 - al_start s + r)) at 1 by (unfold p1 in *; lia). apply Nat.div_add_l; auto. }
+    intros j Hj. cbn [al_start al_chunks] in *.
+    assert (Hjl : j < length (al_chunks s)).
+    { assert (p1 / cs <= length (al_chunks s)).
+      { rewrite <- (Nat.div_mul (length (al_chunks s)) cs Hcs). apply Nat.div_le_mono; auto. unfold p1. lia. }
+      lia. }
+    destruct (Nat.lt_ge_cases j q) as [Hlt | Hge].
+    - rewrite c11_al_reset_loop_below by lia. apply Hb. exact Hlt.
+    - apply c11_al_reset_loop_in; lia.
+  Qed.
+
+  Lemma c11_al_below_purge s : c11_al_below (c11_al_purge T N s).
+  Proof.
+    unfold c11_al_purge. fold cs. destruct (0 <? al_start s / cs) eqn:E.
+    - intros j Hj. cbn [al_start] in Hj. rewrite Nat.div_small in Hj by (apply Nat.mod_upper_bound; auto). lia.
+    - apply Nat.ltb_ge in E. intros j Hj. lia.
+  Qed.
+
+  Definition c11_al_R2 (w : c11_al_world T) (ws : c11_als_world T) : Prop := c11_al_R w ws /\ c11_al_below (fst w).
+
+  Lemma c11_al_step_sim2 : forall w ws o ws', c11_al_R2 w ws -> c11_als_step T ws o = Some ws' ->
+    exists w', c11_al_step T d N true w o = C11_ok w' /\ c11_al_R2 w' ws'.
+  Proof.
+    intros w ws o ws' [HR Hb] Hs. destruct (c11_al_step_sim w ws o ws' HR Hs) as (w' & Hstep & HR').
+    exists w'. split; auto. split; auto.
+    destruct w as [s h], ws as [l hs]. destruct HR as [Hinv _]. cbn [fst snd] in *.
+    destruct o as [v | k | | | i v | k]; cbn [c11_als_step c11_al_step] in *.
+    - destruct (c11_al_push_back T d N s v) as [s' | |] eqn:E; try discriminate. simpl in Hstep. injection Hstep as <-.
+      eapply c11_al_below_push; eauto.
+    - destruct (k <? length l) eqn:Ek; [| discriminate]. apply Nat.ltb_lt in Ek.
+      pose proof (c11_al_below_erase s l k Hinv Hb Ek) as He. unfold c11_al_begin in Hstep.
+      destruct (c11_al_eraseToHere T N s (al_start s + k)) as [s' p']. injection Hstep as <-. exact He.
+    - injection Hstep as <-. apply c11_al_below_purge.
+    - injection Hstep as <-. intros j Hj. cbn [fst c11_al_clear c11_al_empty al_start] in Hj. rewrite Nat.div_0_l in Hj by auto. lia.
+    - unfold c11_al_set in Hstep. destruct (c11_al_assignAt T N s (al_start s + i) v) as [s' | |] eqn:E; try discriminate.
+      simpl in Hstep. injection Hstep as <-. apply c11_al_assignAt_chunks in E. destruct E as [Est Ech].
+      intros j Hj. cbn [fst] in *. rewrite Est in Hj. rewrite Ech. apply Hb; auto.
+      assert (al_start s / cs <= (al_start s + i) / cs) by (apply Nat.div_le_mono; auto; lia). lia.
+    - injection Hstep as <-. exact Hb.
+  Qed.
+
+  Lemma c11_al_deep_ok : forall w ws, c11_al_R2 w ws -> c11_al_deep_wf (c11_al_deep T (fst w)).
+  Proof.
+    intros [s h] [l hs] [[(Hcap & Hle & Hsz & Hal & Hel) _] Hb]. cbn [fst] in *. unfold c11_al_deep, c11_al_deep_wf.
+    rewrite map_length. split; auto. split; auto. intros j Hj.
+    rewrite nth_error_map. destruct (j <? al_start s / cs) eqn:E.
+    - apply Nat.ltb_lt in E. rewrite (Hb j E). reflexivity.
+    - apply Nat.ltb_ge in E. destruct (Hal j (conj E Hj)) as [c [Hc _]]. rewrite Hc. reflexivity.
+  Qed.
+
+  Theorem c11_arraylist_private_state_lemma : forall ops tr,
+    c11_als_run T ([], None) ops = map Some tr ->
+    exists dtr, c11_al_run_deep T d N true (c11_al_empty T, None) ops = map C11_ok dtr /\ length dtr = length tr /\ Forall c11_al_deep_wf dtr.
+  Proof.
+    intros ops tr Hs. unfold c11_als_run, c11_al_run_deep in *.
+    destruct (c11_sim_run_match _ _ _ _ _ (c11_al_step T d N true) (fun w => C11_ok (c11_al_deep T (fst w))) (c11_als_step T) (c11_als_observe T)
+                c11_al_R2 (fun x _ => c11_al_deep_wf x) c11_al_step_sim2
+                (fun w ws H => ex_intro _ _ (conj eq_refl (c11_al_deep_ok w ws H))) ops (c11_al_empty T, None) ([], None) tr) as (dtr & Hrun & HF); auto.
+    - split. split; simpl; auto. apply c11_al_inv_empty. intros j Hj. simpl in Hj. rewrite Nat.div_0_l in Hj by auto. lia.
+    - exists dtr. split; auto. split.
+      + clear -HF. induction HF; simpl; auto.
+      + clear -HF. induction HF; constructor; auto.
+  Qed.
 End ALP.
